@@ -76,6 +76,8 @@ _INT = rb'(?:0[xXbBoO][\da-fA-F]+|\d+)'
 K_INT_INDEX = re.compile(rb'(?<![\w.$\])])(?:\(\s*)+' + _INT + rb'(?:\s*\))+\s*\[\s*["\'][A-Za-z_$]|(?<![\w.$(])' + _INT + rb'\s*\[\s*["\'][A-Za-z_$]')
 # K17: regexp character class: the backslash of \\- is dropped after another escape was removed, turning literal characters into a range: /[(\\^\\--]/ -> /[(^--]/
 K_REGEX_DASH = re.compile(rb'\[[^\]\n]*\\[^\]\n]\\-')
+# K18: a bare yield in a template substitution loses its parentheses; the minifier's own parser rejects the result on the second pass
+K_TPL_YIELD = re.compile(rb'\$\{\s*\(*\s*yield\s*\)*\s*\}')
 # K10: a processing instruction whose content contains ">" before its "?>" is cut at that ">" by the XML/SVG minifiers
 K_PI_GT = re.compile(rb'<\?(?:(?!\?>)[^>])*(?<!\?)>', re.S)
 
@@ -154,6 +156,8 @@ def excluded(lang, opts, b):
         tags.append('K16')
     if lang in ('js', 'html') and K_REGEX_DASH.search(b):
         tags.append('K17')
+    if lang in ('js', 'html') and K_TPL_YIELD.search(b):
+        tags.append('K18')
     if lang == 'html' and K_SCRIPT_TYPE_CASE.search(b):
         tags.append('K11')
     if lang in ('js', 'html') and ('names' in opts or 'keep' in opts) and same_name_var_and_let(b):
@@ -378,6 +382,69 @@ def ctx_sets():
     return res
 
 
+def tla_string_set(module, name):
+    """members of a set of strings defined in spec/<module>.tla as  name == { "..", ".." }  (TLA+ escapes undone)"""
+    txt = open(os.path.join(vlib.SPEC, module + '.tla')).read()
+    body = txt[txt.index('\n' + name + ' == {'):]
+    body = body[:body.index('\n}')]
+    return [m.replace('\\\\', '\\') for m in re.findall(r'"((?:[^"\\]|\\.)*)"', re.sub(r'\\\*[^\n]*', '', body))]
+
+
+HOT_OPERANDS = {'a??b', 'a||b', 'a&&b', 'a**b', '-a', '!a', 'a=>b', 'async a=>b', '()=>{}', 'yield a', 'yield', 'await a', 'a=b', 'a??=b', 'a,b',
+                'a?b:d', 'a in b', '{}', 'function(){}', 'class{}', 'new a', 'a?.b', 'a`t`', 'typeof a', 'a++'}
+
+
+def render_rewrite(rw, x, y, par):
+    xs = '(%s)' % x if par & 1 else x
+    ys = '(%s)' % y if par & 2 else y
+    prog = rw.replace('@X', xs).replace('@Y', ys).replace('@Z', 'c')
+    if 'yield' in prog:
+        prog = 'function*g(){%s}' % prog
+    elif 'await' in prog:
+        prog = 'async function g(){%s}' % prog
+    return prog.encode()
+
+
+def rewrite_programs(rnd, quick):
+    """(rewrite trigger, X, Y, parenthesisation) states of spec/JsRewrite.tla: the slice with a plain variable on one side completely
+    (most rewrites need an operand they can compare), the rest sampled"""
+    rws, ops = sorted(tla_string_set('JsRewrite', 'Rewrites')), sorted(tla_string_set('JsRewrite', 'Operands'))
+    hot = [o for o in ops if o in HOT_OPERANDS]
+    out = []
+    if quick:
+        out += [(r, 'a', y, 0) for r in rws for y in hot]
+        out += vlib.sample([(r, 'a', y, 2) for r in rws for y in hot], 900, rnd)
+        out += [(r, x, 'a', p) for r, x, p in vlib.sample([(r, x, p) for r in rws for x in hot for p in (0, 1)], 600, rnd)]
+        out += [(rnd.choice(rws), rnd.choice(ops), rnd.choice(ops), rnd.randrange(4)) for _ in range(400)]
+    else:
+        out += [(r, 'a', y, p) for r in rws for y in ops for p in range(4)]
+        out += [(r, x, 'a', p) for r in rws for x in ops for p in range(4)]
+        out += [(rnd.choice(rws), rnd.choice(ops), rnd.choice(ops), rnd.randrange(4)) for _ in range(60000)]
+    return out
+
+
+def css_string_documents():
+    """states of spec/CssStrCtx.tla rendered: list of (lang, inline, bytes, origin)"""
+    docs = []
+    for c in sorted(tla_string_set('CssStrCtx', 'Constructs')):
+        for q, o in (("'", '"'), ('"', "'")):
+            decl = c.startswith('@D')
+            body = (c[2:] if decl else c).replace('@Q', q).replace('@O', o)
+            sheet = ('a{%s;color:red}b{margin:0}' % body) if decl else body + 'b{margin:0}'
+            tag = 'cssstr:%s:%s' % ('sq' if q == "'" else 'dq', c[:40])
+            docs.append(('css', False, sheet, tag + ':css'))
+            docs.append(('html', False, '<!doctype html><title>t</title><style>%s</style><p>x' % sheet, tag + ':html-style'))
+            if '<' not in sheet and '&' not in sheet:
+                docs.append(('svg', False, '<svg xmlns="http://www.w3.org/2000/svg"><style>%s</style><path d="M0 0"/></svg>' % sheet, tag + ':svg-style'))
+            if decl:
+                docs.append(('css', True, body + ';color:red', tag + ':inline'))
+                if o not in body:
+                    docs.append(('html', False, '<p style=%s%s;color:red%s>x</p><p>y' % (o, body, o), tag + ':html-attr'))
+                    if '<' not in body and '&' not in body:
+                        docs.append(('svg', False, '<svg xmlns="http://www.w3.org/2000/svg"><g style=%s%s;color:red%s/></svg>' % (o, body, o), tag + ':svg-attr'))
+    return docs
+
+
 def render_ctx(ctx, ds, pay):
     return ctx.replace('@D', '+'.join(ds)).replace('@P', pay).encode()
 
@@ -533,6 +600,7 @@ def tlc_jobs(ctx):
     """design-level model checking (run in threads next to the driver)"""
     q = ctx.quick()
     jobs = [('Closure', 'Closure_mc.cfg' if q else 'Closure_mc4.cfg', None),
+            ('JsRewrite', 'JsRewrite.cfg', None), ('CssStrCtx', 'CssStrCtx.cfg', None),
             ('JsPrintCtx', 'JsPrintCtx_1.cfg', 'printctx')] + ([] if q else [('JsPrintCtx', 'JsPrintCtx_2.cfg', None)]) + [
             ('JsLexAdj', 'JsLexAdj_full3.cfg' if q else 'JsLexAdj_full4.cfg', 'adj-full'),
             ('JsLexAdj', 'JsLexAdj_core4.cfg' if q else 'JsLexAdj_core6.cfg', 'adj-core')]
@@ -543,7 +611,7 @@ def tlc_jobs(ctx):
         dp = ctx.path('gen', dump) if dump else None
         r = vlib.tlc_mc(ctx, mod, cfg, workers=4 if q else 8, dump=dp, timeout=2400, heap='4g')
         return (cfg, r, dp)
-    with ThreadPoolExecutor(max_workers=3) as ex:
+    with ThreadPoolExecutor(max_workers=4) as ex:
         for cfg, r, dp in ex.map(one, jobs):
             res[cfg] = (r, dp)
     return res
@@ -693,6 +761,19 @@ def run(ctx):
                   origin='ctx:%s|%s|%s' % (c, '+'.join(ds), pay)) is not None:
             nctx += 1
     ctx.coverage['printctx_programs'] = nctx
+    # rewrite triggers x operand precedence classes (JsRewrite) and CSS string constructs x quote x host (CssStrCtx)
+    nrw = 0
+    for rw, x, y, par in (rewrite_programs(rnd, quick) if not only_pinned else []):
+        if cs.add('js', 'default' if rnd.random() < 0.85 else rnd.choice(OPTSETS['js'][1:]), data=render_rewrite(rw, x, y, par),
+                  origin='rw:%s|%s|%s|%d' % (rw, x, y, par)) is not None:
+            nrw += 1
+    ctx.coverage['rewrite_programs'] = nrw
+    ncss = 0
+    for lang, inline, doc, origin in (css_string_documents() if not only_pinned else []):
+        for o in (OPTSETS[lang] if not quick else ['default'] + ([rnd.choice(OPTSETS[lang][1:])] if rnd.random() < 0.3 else [])):
+            if cs.add(lang, o, data=doc.encode(), origin=origin, inline=inline) is not None:
+                ncss += 1
+    ctx.coverage['css_string_documents'] = ncss
     # embedding probes: JavaScript whose printed form must not contain "</script" or "<!--" when it sits in an HTML script element
     for k, js in enumerate(EMBED_PROBES if not only_pinned else []):
         for o in OPTSETS['html'] if not quick else ['default', rnd.choice(OPTSETS['html'][1:])]:
